@@ -130,7 +130,7 @@ func driveSingleapp(path string, ro bool) error {
 	if err != nil {
 		return err
 	}
-	defer app.Close()
+	defer closeUnlessPanicking(app)
 	err = readApp(app)
 	if !ro {
 		if _, _, e := app.Append([]byte("appended")); e != nil && err == nil {
@@ -147,7 +147,7 @@ func driveMultiapp(dir, ext string, fileSize int, ro bool) error {
 	if err != nil {
 		return err
 	}
-	defer app.Close()
+	defer closeUnlessPanicking(app)
 	err = readApp(app)
 	if !ro {
 		if _, _, e := app.Append([]byte("appended")); e != nil && err == nil {
@@ -164,7 +164,7 @@ func driveAhtree(dir string, ro bool) error {
 	if err != nil {
 		return err
 	}
-	defer t.Close()
+	defer closeUnlessPanicking(t)
 	n := t.Size()
 	var first error
 	note := func(err error) {
@@ -199,7 +199,7 @@ func driveTbtree(dir string, ro bool) error {
 	if err != nil {
 		return err
 	}
-	defer t.Close()
+	defer closeUnlessPanicking(t)
 	var first error
 	note := func(err error) {
 		if err != nil && first == nil && !errors.Is(err, tbtree.ErrKeyNotFound) && !errors.Is(err, tbtree.ErrNoMoreEntries) {
@@ -242,7 +242,7 @@ func driveStore(dir string, opts *store.Options, ro bool) error {
 	if err != nil {
 		return err
 	}
-	defer st.Close()
+	defer closeUnlessPanicking(st)
 	var first error
 	note := func(err error) {
 		if err != nil && first == nil && !errors.Is(err, store.ErrKeyNotFound) {
@@ -292,7 +292,7 @@ func driveStore(dir string, opts *store.Options, ro bool) error {
 		note(err)
 	}
 	// pacing only (never part of a verdict): give the indexer a moment to consume the log
-	ctx, cancel := context.WithTimeout(context.Background(), 150*time.Millisecond)
+	ctx, cancel := context.WithTimeout(context.Background(), 60*time.Millisecond)
 	st.WaitForIndexingUpto(ctx, n)
 	cancel()
 	for _, k := range knownKeys {
@@ -318,6 +318,15 @@ func driveStore(dir string, opts *store.Options, ro bool) error {
 		}
 	}
 	return first
+}
+
+// closeUnlessPanicking closes x on a normal return only: after a panic the
+// component may still hold its own mutex and Close would block on it.
+func closeUnlessPanicking(x interface{ Close() error }) {
+	if r := recover(); r != nil {
+		panic(r)
+	}
+	x.Close()
 }
 
 func fileChild(setup []byte, scratch string) func(i int, data []byte) []byte {
@@ -525,9 +534,15 @@ func mutationsOf(rel string, b []byte, r interface{ IntN(int) int }, randomN int
 		}
 		orig := getBE(b[f.Off:], f.Size)
 		seen := map[uint64]bool{orig: true}
+		isOpt := strings.Contains(f.Name, "int:")
 		for _, sp := range specials {
 			v := sp.val(orig, max)
 			if seen[v] {
+				continue
+			}
+			if isOpt && v >= 1<<18 && v < 1<<30 {
+				// an option of a few hundred thousand to a billion makes Open merely slow
+				// (gigabytes of legitimate-looking buffers): decides nothing, costs a watchdog
 				continue
 			}
 			seen[v] = true
@@ -538,7 +553,16 @@ func mutationsOf(rel string, b []byte, r interface{ IntN(int) int }, randomN int
 		add("hdr-trunc", fop{"trunc", int64(cut), nil})
 	}
 	for bit := 0; bit < hl*8; bit++ {
-		add("hdr-bitflip:"+regionOfFields(fields, bit/8), fop{"put", int64(bit / 8), []byte{b[bit/8] ^ 1<<uint(bit%8)}})
+		region := regionOfFields(fields, bit/8)
+		if strings.Contains(region, "int:") {
+			// same reason: of the bits 18..29 of a persisted option keep none
+			f := fieldAt(fields, bit/8)
+			vbit := (f.Off+f.Size-1-bit/8)*8 + bit%8
+			if vbit >= 18 && vbit < 30 {
+				continue
+			}
+		}
+		add("hdr-bitflip:"+region, fop{"put", int64(bit / 8), []byte{b[bit/8] ^ 1<<uint(bit%8)}})
 	}
 	for cut := len(b) - 1; cut >= hl && cut > len(b)-24; cut-- {
 		add("tail-trunc", fop{"trunc", int64(cut), nil})
@@ -594,6 +618,15 @@ func corpusValues() [][]byte {
 	return vs
 }
 
+func fieldAt(fs []field, off int) field {
+	for _, f := range fs {
+		if off >= f.Off && off < f.Off+f.Size {
+			return f
+		}
+	}
+	return field{Off: off, Size: 1}
+}
+
 func regionOfFields(fs []field, off int) string {
 	for _, f := range fs {
 		if off >= f.Off && off < f.Off+f.Size {
@@ -619,7 +652,7 @@ func runFiles(c *fw.Ctx, co *Corpora, setup []byte, confirm *[]confirmReq) {
 		corpora = append(corpora, k)
 	}
 	sort.Strings(corpora)
-	perFile := c.N(260, 2600) // cases per (corpus, file), spread round-robin over the mutation classes
+	perFile := c.N(150, 1500) // cases per (corpus, file), spread round-robin over the mutation classes
 	var cases [][]byte
 	var meta []fileCase
 	for _, corpus := range corpora {
@@ -720,17 +753,47 @@ func runFiles(c *fw.Ctx, co *Corpora, setup []byte, confirm *[]confirmReq) {
 		sc[i], sm[i] = cases[p], meta[p]
 	}
 	c.Set("file_level_cases", len(sc))
+	// violations whose mutated region is a persisted option are gathered per signature
+	// and emitted once, with every option name that produced them
+	type optViol struct {
+		names  map[string]int
+		detail string
+		files  map[string][]byte
+	}
+	optViols := map[string]*optViol{}
+	report := func(fc fileCase, sig, detail string, files map[string][]byte) {
+		opt := persistedOption(regionOfClass(fc.Class))
+		if opt == "" {
+			violate(c, sig, detail, files)
+			return
+		}
+		if !strings.HasSuffix(sig, "/persisted-option") {
+			sig += "/persisted-option"
+		}
+		c.Count("occurrences:"+sig, 1)
+		v := optViols[sig]
+		if v == nil {
+			v = &optViol{names: map[string]int{}, detail: detail, files: files}
+			optViols[sig] = v
+		}
+		v.names[opt]++
+	}
 	c.RunCases("c16file", setup, sc, fw.CasesOpts{Workers: 14, CaseTimout: 40 * time.Second, ASLimit: asLimit}, func(r fw.CaseResult) {
 		fc := sm[r.Index]
 		d, _ := json.Marshal(fc)
 		files := map[string][]byte{"case.json": d}
 		desc := fmt.Sprintf("%s on corpus %s with %s mutated (%s, ops %s)", fc.EP, fc.Corpus, fc.File, fc.Class, opsString(fc.Ops))
+		region := regionOfClass(fc.Class)
 		switch {
+		case r.TimedOut && persistedOption(region) != "" && !parkedOnLock(r.Text):
+			// a huge persisted option makes Open slow (it sizes buffers): decides nothing
+			c.Inconclusive("c16file: watchdog fired while the main goroutine was not waiting for a mutex, persisted option mutated: " + desc + " at " + hangSig(fc.EP, r.Text))
+			return
 		case r.TimedOut:
 			*confirm = append(*confirm, confirmReq{Child: "c16file", B: batch{EP: fc.EP}, Text: r.Text, Data: d})
 			return
 		case r.Crashed:
-			sig := crashSig(fc.EP, regionOfClass(fc.Class), r.Text)
+			sig := crashSig(fc.EP, region, r.Text)
 			if sig == "" {
 				c.Inconclusive("c16file: child ran out of address space on a small allocation: " + desc + ": " + firstLines(r.Text, 2))
 				return
@@ -741,7 +804,7 @@ func runFiles(c *fw.Ctx, co *Corpora, setup []byte, confirm *[]confirmReq) {
 			c.Count("inputs_total", 1)
 			c.Count("file_cases", 1)
 			c.Distinct(fc.EP + "|" + fc.Class + "|crash:" + sig)
-			violate(c, sig, desc+": the child process died\n"+firstLines(r.Text, 24), files)
+			report(fc, sig, desc+": the child process died\n"+firstLines(r.Text, 24), files)
 			return
 		}
 		var out fileOut
@@ -759,13 +822,27 @@ func runFiles(c *fw.Ctx, co *Corpora, setup []byte, confirm *[]confirmReq) {
 		c.Count("file_cases", 1)
 		c.Distinct(fc.EP + "|" + fc.Class + "|" + out.Outcome)
 		if out.Outcome == "alloc-over" {
-			out.Sig = allocSig(fc.EP, regionOfClass(fc.Class))
+			out.Sig = allocSig(fc.EP, region)
 		}
 		if out.Sig != "" {
 			files["panic.txt"] = []byte(out.Text)
-			violate(c, out.Sig, fmt.Sprintf("%s, alloc %d bytes\n%s", desc, out.Alloc, firstLines(out.Text, 16)), files)
+			report(fc, out.Sig, fmt.Sprintf("%s, alloc %d bytes\n%s", desc, out.Alloc, firstLines(out.Text, 16)), files)
 		}
 	})
+	var sigs []string
+	for sig := range optViols {
+		sigs = append(sigs, sig)
+	}
+	sort.Strings(sigs)
+	for _, sig := range sigs {
+		v := optViols[sig]
+		var names []string
+		for n, k := range v.names {
+			names = append(names, fmt.Sprintf("%s (%d)", n, k))
+		}
+		sort.Strings(names)
+		c.Violation(sig, "persisted option fields whose mutation gave this outcome: "+strings.Join(names, ", ")+"\nfirst case: "+v.detail, v.files)
+	}
 }
 
 func opsString(ops []fop) string {
